@@ -22,5 +22,5 @@ func init() {
 	zv.Register(&zv.Prop{ID: "C31", Topic: "c31",
 		Gen:  func(g *zv.Gen) { genTicket(g); genReal(g) },
 		Exec: exec, Timeout: 300 * time.Second, // a real-handshake case is ~30 handshakes; generous for a loaded machine
-		Rule: "ticket stream: for random ticket-key lists (1..4 keys, duplicates, rotations) and session states: encryptTicket/decryptTicket on valid tickets under current / old / rotated-out / foreign keys, every single-byte mutation (several flips per position on small tickets, one flip per position on full-size tickets), truncation at every length, extensions, swapped key names; sessionState / sessionStateTLS13 marshal+unmarshal on valid and mutated encodings; the real checkForResumption of TLS 1.2 and TLS 1.3 on scenario grids (expired, wrong version, suite not offered / not configured / not usable with the key, tickets disabled, client-certificate requirements, PSK modes, binder good/bad/missing, >5 identities) and on every mutated ticket; Config.ticketKeys auto-rotation histories. A case is one distinct line; T3 = independent crypto/aes+crypto/hmac reference of the ticket format, decrypt(encrypt(s)) = s, altered/foreign/rotated-out tickets never accepted or resumed, resumed sessions keep version and suite. real stream (T3 only): real zcrypto client/server resumption handshakes for TLS 1.0-1.3 x 12 (version, suite) configurations: every ticket byte position mutated (cache-presented, consistent client; and on the wire), truncation / extension, foreign servers, key-rotation histories of 0..3 SetSessionTicketKeys calls over 4 keys, auto-rotated keys with an advanced clock, cross-version / cross-suite presentation, server configuration changes, replay; oracle = authentic ticket under a listed key resumes with the original version/suite and equal exporter output on both sides, anything else gives a full handshake or an error, never a resumption"})
+		Rule: "ticket stream: for random ticket-key lists (1..4 keys, duplicates, rotations) and session states: encryptTicket/decryptTicket on valid tickets under current / old / rotated-out / foreign keys, every single-byte mutation (several flips per position on small tickets, one flip per position on full-size tickets), truncation at every length, extensions, swapped key names; sessionState / sessionStateTLS13 marshal+unmarshal on valid and mutated encodings; the real checkForResumption of TLS 1.2 and TLS 1.3 on scenario grids (expired, wrong version, offered (client hello) version chosen independently of the negotiated one: equal / above / below, grid ticket version x negotiated x offered, suite not offered / not configured / not usable with the key, tickets disabled, client-certificate requirements, PSK modes, binder good/bad/missing, >5 identities) and on every mutated ticket; Config.ticketKeys auto-rotation histories. A case is one distinct line; T3 = independent crypto/aes+crypto/hmac reference of the ticket format, decrypt(encrypt(s)) = s, altered/foreign/rotated-out tickets never accepted or resumed, resumed sessions keep version and suite. real stream (T3 only): real zcrypto client/server resumption handshakes for TLS 1.0-1.3 x 12 (version, suite) configurations: every ticket byte position mutated (cache-presented, consistent client; and on the wire), truncation / extension, foreign servers, key-rotation histories of 0..3 SetSessionTicketKeys calls over 4 keys, auto-rotated keys with an advanced clock, cross-version / cross-suite presentation, server configuration changes, replay, sequences of connections with independently chosen client and server version ranges (maxima and minimums, issuing and resuming connections) over listeners sharing the ticket keys (same Config re-capped, Clone, fresh Config with the same keys, GetConfigForClient; explicit and auto keys): the cached session resumes at exactly its (version, suite) whenever that version is negotiated and the suite still negotiable, otherwise a completed full handshake at the version the ranges determine, never an aborted one; oracle = authentic ticket under a listed key resumes with the original version/suite and equal exporter output on both sides, anything else gives a full handshake or an error, never a resumption"})
 }
